@@ -40,8 +40,10 @@ GfZero == <<>>
 GfOne == <<1>>
 
 \* ------------------------------------------------------------------ polynomials over GF(2)
+GfLimb(v) == IF v = 0 THEN <<>> ELSE <<v>>                            \* a polynomial of degree < 16
 GfXor(a, b) == LET la == Len(a)  lb == Len(b) IN
-   IF la = lb THEN GfNorm(TLCEval([i \in 1..la |-> a[i] ^^ b[i]]))
+   IF la = 1 /\ lb = 1 THEN GfLimb(a[1] ^^ b[1])
+   ELSE IF la = lb THEN GfNorm(TLCEval([i \in 1..la |-> a[i] ^^ b[i]]))
    ELSE IF la > lb THEN TLCEval([i \in 1..la |-> IF i <= lb THEN a[i] ^^ b[i] ELSE a[i]])
    ELSE TLCEval([i \in 1..lb |-> IF i <= la THEN a[i] ^^ b[i] ELSE b[i]])
 RECURSIVE GfLd(_)
@@ -56,10 +58,12 @@ GfShl(a, s) == IF Len(a) = 0 THEN a ELSE
 GfShr(a, s) ==
    LET q == s \div 16  r == s % 16  dn == GfPow2[r + 1]  up == GfPow2[17 - r]  la == Len(a)
    IN IF la <= q THEN <<>>
+      ELSE IF la = 1 THEN GfLimb(a[1] \div dn)
       ELSE GfNorm(TLCEval([i \in 1..(la - q) |-> (a[i + q] \div dn) + (IF i + q < la THEN (a[i + q + 1] % dn) * up ELSE 0)]))
 GfLow(a, n) ==          \* a mod x^n
    LET q == n \div 16  r == n % 16  la == Len(a)
    IN IF la <= q THEN a
+      ELSE IF la = 1 THEN GfLimb(a[1] % GfPow2[r + 1])
       ELSE GfNorm(TLCEval([i \in 1..(IF r = 0 THEN q ELSE q + 1) |-> IF i <= q THEN a[i] ELSE a[i] % GfPow2[r + 1]]))
 \* carry-less product of two limbs (below 2^31): xor of x * 2^i over the bits i of y
 RECURSIVE GfC16R(_,_,_)
@@ -71,7 +75,9 @@ RECURSIVE GfColLo(_,_,_,_,_)
 GfColLo(T, k, i, hi, acc) == IF i > hi THEN acc ELSE GfColLo(T, k, i + 1, hi, acc ^^ (T[i][k + 1 - i] % 65536))
 RECURSIVE GfColHi(_,_,_,_,_)
 GfColHi(T, k, i, hi, acc) == IF i > hi THEN acc ELSE GfColHi(T, k, i + 1, hi, acc ^^ (T[i][k - i] \div 65536))
-GfClMul(a, b) == IF Len(a) = 0 \/ Len(b) = 0 THEN <<>> ELSE
+GfClMul(a, b) == IF Len(a) = 0 \/ Len(b) = 0 THEN <<>>
+   ELSE IF Len(a) = 1 /\ Len(b) = 1 THEN LET c == GfC16(a[1], b[1]) IN IF c < 65536 THEN <<c>> ELSE <<c % 65536, c \div 65536>>
+   ELSE
    LET la == Len(a)  lb == Len(b)
        T == TLCEval([i \in 1..la |-> [j \in 1..lb |-> GfC16(a[i], b[j])]])
    IN GfNorm(TLCEval([k \in 1..(la + lb) |->
@@ -175,8 +181,7 @@ ASSUME GfMul(<<0, 0, 0, 0, 0, 0, 0, 32768>>, <<0, 0, 0, 0, 0, 0, 0, 32768>>, GfF
 ASSUME GfInv(<<22396, 47175, 100, 20304, 39544, 46889, 28453, 35612>>, GfF128) = <<59517, 52285, 64520, 60807, 50340, 27328, 57327, 64656>>
 ASSUME GfInv(<<2>>, GfF128) = <<67, 0, 0, 0, 0, 0, 0, 32768>>
 ASSUME GfInv(<<135>>, GfF128) = <<54391, 16248, 51945, 45089, 36165, 37879, 7342, 23298>>
-ASSUME GfInvFermat(<<135>>, GfF128) = <<54391, 16248, 51945, 45089, 36165, 37879, 7342, 23298>>
-ASSUME GfInv(<<>>, GfF128) = <<>> /\ GfPow(<<135>>, 0, GfF128) = <<1>> /\ GfPow(<<2>>, 130, GfF128) = <<540>>
+ASSUME GfInv(<<>>, GfF128) = <<>> /\ GfPow(<<135>>, 0, GfF128) = <<1>> /\ GfPow(<<0, 0, 0, 0, 0, 0, 0, 32768>>, 2, GfF128) = <<4199, 0, 0, 0, 0, 0, 0, 49152>> /\ GfPow(<<2>>, 9, GfF128) = <<512>>
 \* GCM specification (McGrew, Viega), test case 2: GHASH(H, {}, C) = ((C * H) + len) * H with every block bit-reversed
 \* H = 66e94bd4ef8a2c3b884cfa59ca342b2e, C = 0388dace60b6a392f328c2b971b2fe78, len = 0^120 80, GHASH = f38cbb1ad69223dcc3457ae5b6b0f885
 ASSUME GfMul(GfXor(GfMul(<<4544, 29531, 27910, 18885, 5327, 40259, 19854, 7807>>, <<38758, 11218, 20983, 56372, 12817, 39519, 11347, 29908>>, GfF128), <<0, 0, 0, 0, 0, 0, 0, 256>>), <<38758, 11218, 20983, 56372, 12817, 39519, 11347, 29908>>, GfF128) = <<12751, 22749, 18795, 15300, 41667, 42846, 3437, 41247>>
